@@ -196,6 +196,9 @@ func runC20(rng *rand.Rand, scale int, out string, shards int, seed int64, corpu
 			sum.SkippedEscape++
 			continue
 		}
+		if i%6 == 5 {
+			g = percentNames(rng, g) // `%` in file and directory names
+		}
 		if i%5 == 4 {
 			// the include name comes from a parameter
 			for n, t := range g.Files {
